@@ -691,6 +691,14 @@ class MdConn(P.PipelineConnection):
         req = reqs[-1]
         asked_l = (req.rotation_X_local1, req.rotation_Y_local, req.rotation_X_local2)
         asked_r = (req.rotation_X_remote1, req.rotation_Y_remote, req.rotation_X_remote2)
+        if sc.get("via10"):
+            # the link layer speaks qlink-interface 1.0: it measures in the angles of the request object the
+            # real `request_to_qlink_1_0` produces
+            from netqasm.qlink_compat import request_to_qlink_1_0
+            q10 = request_to_qlink_1_0(req)
+            asked_l = (q10.x_rotation_angle_local_1, q10.y_rotation_angle_local, q10.x_rotation_angle_local_2)
+            asked_r = (q10.x_rotation_angle_remote_1, q10.y_rotation_angle_remote, q10.x_rotation_angle_remote_2)
+            link["request_10"] = type(q10).__name__
         link["asked"] = (tuple(int(x) for x in asked_l), tuple(int(x) for x in asked_r))
         link["request_type"] = req.type.name
         link["number"] = int(req.number)
@@ -904,6 +912,15 @@ def judge_md_both(sc, obs, tol=1e-9):
         if out != raw:
             bad.append({"pair": i, "bell": sc["bells"][i], "creator_raw": raw, "creator_reported": out,
                         "wanted": "the creator reports its raw outcome"})
+    asked = obs.get("asked")
+    if asked is not None:
+        app_l, app_r = obs["application"]
+        want = (tuple(app_l), tuple(app_r) if sc["kind"] == "M" else tuple(asked[1]))
+        if (tuple(asked[0]), tuple(asked[1])) != want:
+            bad.append({"asked_of_link": [list(asked[0]), list(asked[1])],
+                        "application": [list(app_l), list(app_r)],
+                        "through": "request_to_qlink_1_0" if sc.get("via10") else "LinkLayerCreate",
+                        "wanted": "the link layer is asked to measure in the bases the application requested"})
     if sc["kind"] == "M":
         rot_l, rot_r = obs["application"]
         for i, b in enumerate(sc["bells"]):
